@@ -325,6 +325,11 @@ pub fn edits_for(base: &Value, rng: &mut Rng, thorough: bool, budget_singles: us
             }
         }
     }
+    if !thorough {
+        // quick runs every honest proof of the build: sample the scalar sweeps
+        rng.shuffle(&mut singles);
+        singles.truncate(160);
+    }
     out.extend(singles);
     rng.shuffle(&mut others);
     others.truncate(budget_singles);
@@ -337,15 +342,20 @@ pub fn edits_for(base: &Value, rng: &mut Rng, thorough: bool, budget_singles: us
         }
     }
     out.extend(groups.clone());
-    out.extend(cross_blowup_queries());
-    let n_pairs = if thorough { 1500 } else { 150 };
+    let mut cross = cross_blowup_queries();
+    if !thorough {
+        rng.shuffle(&mut cross);
+        cross.truncate(40);
+    }
+    out.extend(cross);
+    let n_pairs = if thorough { 1500 } else { 60 };
     let pool: Vec<Edit> = out.clone();
     for _ in 0..n_pairs {
         let a = rng.pick(&pool).clone();
         let b = rng.pick(&pool).clone();
         out.push(Edit::Multi(vec![a, b]));
     }
-    let n_triples = if thorough { 500 } else { 40 };
+    let n_triples = if thorough { 500 } else { 15 };
     for _ in 0..n_triples {
         out.push(Edit::Multi(vec![rng.pick(&pool).clone(), rng.pick(&pool).clone(), rng.pick(&groups).clone()]));
     }
@@ -384,16 +394,13 @@ pub fn run(args: &Args) -> Report {
         rep.note("no honest proof for this build");
         return rep;
     }
-    if !thorough {
-        let k = (base_rng.fork("pick").next() % honest.len() as u64) as usize;
-        honest = vec![honest.swap_remove(k)];
-    }
+    let _ = &mut honest;
     let mut idx = 0u64;
     for h in &honest {
         let sec = h.proof.config.security_bits();
         let base = serde_json::to_value(&h.proof).unwrap();
         let mut rng = base_rng.fork(&h.name);
-        let edits = edits_for(&base, &mut rng, thorough, if thorough { 4000 } else { 300 });
+        let edits = edits_for(&base, &mut rng, thorough, if thorough { 4000 } else { 80 });
         for e in edits {
             let my = worker.wants(idx);
             idx += 1;
